@@ -54,6 +54,9 @@ pub enum Call {
     HeaderWrite { h: SpecHeader },
     DirRead { entries: Vec<SpecEntry>, ic: u8 },
     DirWrite { entries: Vec<SpecEntry>, ic: u8 },
+    /// a directory write of `n` generated entries (consecutive ids, one length, contiguous
+    /// offsets; a few irregular ones): keeps cases with millions of entries small
+    DirWriteGen { n: u32, seed: u64, ic: u8 },
     ReadDirs { src: ImageSrc, range: RangeSpec },
     WriteDirs { n: u32, seed: u64, ic: u8, start: Option<u32>, pos: u32 },
     /// open fault-free, then look one tile up (fault indices are relative to the lookup)
@@ -192,6 +195,32 @@ pub fn draw_entries(rng: &mut Rng, n: usize, high_entropy: bool) -> Vec<SpecEntr
         out.push(SpecEntry { tile_id: id, offset, length: len, run_length: run });
         off = offset + u64::from(len);
         id += u64::from(run.max(1)) + if high_entropy { rng.below(1 << 24) } else { rng.log_range(1, 1 << 16) - 1 };
+    }
+    out
+}
+
+/// `n` mostly regular entries (consecutive ids, constant length, contiguous offsets) with an
+/// irregular one (id gap, other length, explicit offset) every few thousand.
+pub fn gen_regular_entries(n: u32, seed: u64) -> Vec<SpecEntry> {
+    let mut r = Rng::new(seed);
+    let len = 1 + r.below(5000) as u32;
+    let mut id = r.below(1000);
+    let mut off = 0u64;
+    let mut out = Vec::with_capacity(n as usize);
+    let mut next_odd = r.below(4000);
+    for i in 0..u64::from(n) {
+        let mut l = len;
+        if i == next_odd {
+            id += r.below(50);
+            l = 1 + r.below(100_000) as u32;
+            if r.chance(30) {
+                off += r.below(1 << 30);
+            }
+            next_odd = i + 1 + r.below(8000);
+        }
+        out.push(SpecEntry { tile_id: id, offset: off, length: l, run_length: 1 });
+        id += 1;
+        off += u64::from(l);
     }
     out
 }
@@ -399,7 +428,16 @@ fn perform_inner(call: &Call, prep: &Prepared, face: Face, pol: &Policy, fault: 
                 disk.nops(),
             ))
         }
-        Call::DirWrite { entries, ic } => {
+        Call::DirWrite { .. } | Call::DirWriteGen { .. } => {
+            let generated;
+            let (entries, ic) = match call {
+                Call::DirWrite { entries, ic } => (entries, ic),
+                Call::DirWriteGen { n, seed, ic } => {
+                    generated = gen_regular_entries(*n, *seed);
+                    (&generated, ic)
+                }
+                _ => unreachable!(),
+            };
             let d: Directory = entries_to_crate(entries).into();
             let mut disk = SimDisk::new(Vec::new(), pol).fault(fault);
             let r = match face {
@@ -538,6 +576,14 @@ fn shrink_call(call: &Call) -> Vec<Call> {
         Call::Lookup { src, nth } => src.shrink().into_iter().map(|s| Call::Lookup { src: s, nth: *nth }).collect(),
         Call::Rewrite { src, on_reader } => src.shrink().into_iter().map(|s| Call::Rewrite { src: s, on_reader: *on_reader }).collect(),
         Call::Write { a, scramble } => shrink_archive(a).into_iter().map(|a| Call::Write { a, scramble: *scramble }).collect(),
+        Call::DirWriteGen { n, seed, ic } => {
+            let mut v = Vec::new();
+            if *n > 1 {
+                v.push(Call::DirWriteGen { n: n / 2, seed: *seed, ic: *ic });
+                v.push(Call::DirWriteGen { n: n - 1, seed: *seed, ic: *ic });
+            }
+            v
+        }
         Call::DirRead { entries, ic } | Call::DirWrite { entries, ic } => {
             let mk = |e: Vec<SpecEntry>, ic: u8| if matches!(call, Call::DirRead { .. }) { Call::DirRead { entries: e, ic } } else { Call::DirWrite { entries: e, ic } };
             let mut v = Vec::new();
@@ -643,7 +689,39 @@ impl Scenario for Fragmentation {
                 _ => Call::Rewrite { src, on_reader: false },
             };
         }
-        let face = Face::draw(rng);
+        let giant = (6..10).contains(&run);
+        if giant {
+            // runs 6-9: a reader-backed tile above 16 MiB (16 MiB + 1 ... 40 MiB) in a small
+            // foreign archive: looked up (sync, async), re-written, opened
+            let mut f = loop {
+                let f = draw_foreign(rng, false);
+                if f.entries.len() >= 2 && f.entries.len() < 60 && f.contents.iter().all(|c| c.len <= 65_536) {
+                    break f;
+                }
+            };
+            let len = (1u32 << 24) + 1 + if run % 2 == 0 { rng.below(3 << 20) as u32 } else { rng.below(24 << 20) as u32 };
+            f.contents.push(crate::case::Cont { k: 0, seed: rng.below(1 << 30) as u32, len });
+            let slot = rng.usize_below(f.entries.len());
+            f.entries[slot].run = 1;
+            f.entries[slot].c = (f.contents.len() - 1) as u32;
+            let nth: u32 = f.entries[..slot].iter().map(|e| e.run).sum();
+            let src = ImageSrc::Foreign(f);
+            call = match run {
+                6 | 7 => Call::Lookup { src, nth },
+                8 => Call::Rewrite { src, on_reader: false },
+                _ => Call::Open { src, range: RangeSpec::ALL },
+            };
+        }
+        let face = if giant { if run == 7 { Face::Async } else if run == 6 { Face::Sync } else { Face::draw(rng) } } else { Face::draw(rng) };
+        if giant {
+            // transfers of at most 1 MiB / 64 KiB + 1 / alternating tiny and complete / up to 16 MiB
+            let mut pols = Vec::new();
+            for (rd, wr) in [(Xfer::Random(1 << 20), Xfer::Random(1 << 20)), (Xfer::Fixed(65_537), Xfer::Fixed(1 << 20)), (Xfer::TinyHuge, Xfer::Random(3 << 20)), (Xfer::Random(1 << 24), Xfer::Fixed((1 << 24) - 1))] {
+                let pend = if face == Face::Async { Pend { rate: 30, burst: 2, inline: 50, ctl: true } } else { Pend::NEVER };
+                pols.push(Policy { rd, wr, pend, seed: rng.next_u64() });
+            }
+            return to_value(&FragCase { call, face, pols });
+        }
         let small = matches!(call, Call::HeaderRead { .. } | Call::HeaderWrite { .. } | Call::DirRead { .. } | Call::DirWrite { .. });
         let heavy = matches!(&call, Call::Write { a, .. } if a.tiles.len() > 2000) || matches!(&call, Call::WriteDirs { n, .. } if *n > 1000);
         let k = if heavy { 3 } else if tier == Tier::Quick { 8 } else { 16 };
@@ -724,7 +802,7 @@ pub fn call_tag(c: &Call) -> &'static str {
         Call::HeaderRead { .. } => "header-read",
         Call::HeaderWrite { .. } => "header-write",
         Call::DirRead { .. } => "dir-read",
-        Call::DirWrite { .. } => "dir-write",
+        Call::DirWrite { .. } | Call::DirWriteGen { .. } => "dir-write",
         Call::ReadDirs { .. } => "read-dirs",
         Call::WriteDirs { .. } => "write-dirs",
         Call::Lookup { .. } => "lookup",
@@ -763,7 +841,7 @@ fn logical(image: &[u8]) -> Result<String, String> {
 fn codec_of(call: &Call) -> u8 {
     match call {
         Call::Write { a, .. } => a.set.ic,
-        Call::DirWrite { ic, .. } | Call::WriteDirs { ic, .. } => *ic,
+        Call::DirWrite { ic, .. } | Call::DirWriteGen { ic, .. } | Call::WriteDirs { ic, .. } => *ic,
         _ => 1,
     }
 }
@@ -791,6 +869,14 @@ impl Scenario for SyncAsync {
             let pol = Policy { rd: Xfer::Random(200_000), wr: Xfer::Random(200_000), pend: crate::disk::Pend { rate: 20, burst: 2, inline: 50, ctl: true }, seed: rng.next_u64() };
             let call = if write { Call::Write { a, scramble: 1 } } else { Call::Open { src: ImageSrc::Written { a, face: Face::Sync, w: Policy::plain(), scramble: 1 }, range: RangeSpec::ALL } };
             return to_value(&SaCase { call, pol });
+        }
+        if run == 4 && tier == Tier::Thorough {
+            // thorough only: an archive whose decompressed metadata is larger than 2^30 bytes
+            // (zstd; a few hundred KB once compressed), opened through both faces
+            let mut a = draw_archive(rng, SizeClass::Tens, 4);
+            a.meta = crate::case::Meta { kind: 6, seed: rng.next_u64(), n: 1025 };
+            let pol = Policy { rd: Xfer::Random(200_000), wr: Xfer::Random(200_000), pend: crate::disk::Pend { rate: 20, burst: 2, inline: 50, ctl: true }, seed: rng.next_u64() };
+            return to_value(&SaCase { call: Call::Open { src: ImageSrc::Written { a, face: Face::Sync, w: Policy::plain(), scramble: 1 }, range: RangeSpec::ALL }, pol });
         }
         let call = draw_call(rng, tier);
         to_value(&SaCase { call, pol: if rng.chance(85) { Policy::draw(rng, true) } else { Policy::plain() } })
